@@ -31,11 +31,12 @@ from .algebra import run_obligation, ObFail, custom_edge, CDIM
 class World:
     """A graph with uninterpreted edges, plus the observation hooks."""
 
-    def __init__(self, it, vtypes, edges, fixed, m=2, shared=None, int_flags=False):
+    def __init__(self, it, vtypes, edges, fixed, m=2, shared=None, int_flags=False, unit=True):
         self.it, self.vtypes, self.edge_spec, self.m = it, list(vtypes), list(edges), m
         self.dims = [CDIM[t] for t in vtypes]
         self.offs = [sum(self.dims[:k]) for k in range(len(self.dims))]
-        self.poses0 = [sym_pose(t, "x%d" % k, unit=True) for k, t in enumerate(vtypes)]
+        # unit=False: SE(3) vertices whose quaternions are only approximately of unit length (as read from a file)
+        self.poses0 = [sym_pose(t, "x%d" % k, unit=unit) for k, t in enumerate(vtypes)]
         if shared is not None:
             # two point vertices whose poses were built from one and the same ndarray (PoseR2(arr) is a view of arr)
             from .interp import sym_vec
@@ -126,6 +127,13 @@ class World:
             self.fault_at = None
             self.faulted = self.state_key()
             raise PathRaise("LinAlgError(the linear solve fails)", "the solver")
+        # a structurally singular system (no vertex is held fixed, or a free vertex that no edge refers to): scipy's spsolve issues a
+        # MatrixRankWarning (and returns nan); code that turned that warning into an error gets the exception
+        from .assembly import truthy
+        free = [k for k, v in enumerate(self.verts) if not truthy(ga(v, "fixed"))]
+        used = {v for vs in self.edge_spec for v in vs}
+        if len(free) == len(self.verts) or any(k not in used for k in free):
+            self.it.emit_warning("MatrixRankWarning")
         from .interp import sym_vec
         # the solver is a *function* of its arguments: the same system gives the same step, another system another one
         table = self.it.__dict__.setdefault("_world_solve_table", {})
@@ -363,11 +371,11 @@ def split_obligation(vtypes, edges, fixed, ffp, n, k1):
 
 
 def optimize_obligation(vtypes, edges, fixed, ffp, max_iter, verbose, second_call=False, refix=None, shared=None, twin=None,
-                        allow_size_thresholds=False, int_flags=False, max_paths=512):
+                        allow_size_thresholds=False, int_flags=False, max_paths=512, unit=True):
     def fn(it):
         check_result.solves_seen = 0
         fails = Fails()
-        w = World(it, vtypes, edges, set(fixed), shared=shared, int_flags=int_flags)
+        w = World(it, vtypes, edges, set(fixed), shared=shared, int_flags=int_flags, unit=unit)
         if twin is not None:
             # a second graph over the same vertex and edge objects, listed in another order (it renumbers the vertices' gradient
             # indices); the first graph is then optimized: a vertex' block is where its gradient_index says *now*
@@ -455,6 +463,7 @@ SCENARIOS = [
     ("iter2/isolated-free-vertex", V3 + ["PoseR2"], E3, (), True, 2, False, False),
     # fix_first_pose=False and no vertex marked: optimize() fixes nothing on its own
     ("iter1/nothing-fixed", V3, E3, (), False, 1, False, False),
+    ("iter3/nothing-fixed", V3, E3, (), False, 3, False, False),
     # 3-D: the ambient length of an SE(3) pose (7) differs from its number of unknowns (6)
     ("iter1/se3-mixed", ["PoseR3", "PoseSE3", "PoseR2", "PoseSE3"], [(1, 0), (3, 1), (2,), (0, 3)], (), True, 1, False, False),
     # a fixed and a free landmark whose initial poses were created from the same ndarray
@@ -488,6 +497,9 @@ def tasks(prefix, rule, where):
     # fixed flags given as 1 / 0 (truthy values other than the literal True), as the package's own tests do
     out.append(("%s/optimize-semantics/iter2/fixed-middle-flag-given-as-1" % prefix, rule,
                 optimize_obligation(V3, E3, (1,), False, 2, False, int_flags=True), where))
+    # SE(3) vertices whose quaternions are not exactly of unit length (a file gives them to 6-7 digits): the same rules
+    out.append(("%s/optimize-semantics/iter1/se3-quaternions-as-read-from-a-file" % prefix, rule,
+                optimize_obligation(["PoseR3", "PoseSE3", "PoseSE3"], [(1, 0), (2, 1)], (), True, 1, False, True, unit=False), where))
     splits = ((2, 1), (3, 1), (3, 2)) + (((4, 2), (4, 1), (4, 3)) if TIER == "thorough" else ())
     for n_, k1 in splits:
         out.append(("%s/optimize-semantics/split/%d=%d+%d" % (prefix, n_, k1, n_ - k1), rule, split_obligation(V3, E3, (), True, n_, k1), where))
